@@ -333,6 +333,9 @@ ADV_POSITIONS = {
     "priority": (["priority E"], ERRS),
     "send-undefined-ref": (["send $undef_ref.Stop()"], [""]),
     "match-undefined-ref": (["match $undef_ref.Finished()"], [""]),
+    # errors of OTHER exception classes than the wrapped expression errors (a mistyped action event is a ColangSyntaxError)
+    "match-bad-action-event": (["start SomeBotAction(v=1) as $r", "match $r.Done()"], [""]),
+    "send-bad-action-event": (["start SomeBotAction(v=1) as $r", "send $r.Bogus()"], [""]),
 }
 # waiting statements whose pattern argument is evaluated when a candidate event (Other) arrives
 MATCH_POSITIONS = {
